@@ -56,6 +56,10 @@ type Session struct {
 	*Server
 	Statements StatementCache
 	Portals    PortalCache
+
+	// discard is set once an extended query message has failed. All messages
+	// are discarded until a Sync message is received.
+	discard bool
 }
 
 // consumeCommands consumes incoming commands sent over the Postgres wire connection.
@@ -86,7 +90,7 @@ func (srv *Session) consumeSingleCommand(ctx context.Context, reader *buffer.Rea
 
 	// NOTE: we could recover from this scenario
 	if errors.Is(err, buffer.ErrMessageSizeExceeded) {
-		err = handleMessageSizeExceeded(reader, writer, err)
+		err = srv.handleMessageSizeExceeded(t, reader, writer, err)
 		if err != nil {
 			return err
 		}
@@ -96,6 +100,12 @@ func (srv *Session) consumeSingleCommand(ctx context.Context, reader *buffer.Rea
 
 	if err != nil {
 		return err
+	}
+
+	// NOTE: an extended query message has failed, all messages are discarded
+	// until the client requests a re-synchronization.
+	if srv.discard && t != types.ClientSync && t != types.ClientTerminate {
+		return nil
 	}
 
 	if srv.closing.Load() {
@@ -124,7 +134,7 @@ func (srv *Session) consumeSingleCommand(ctx context.Context, reader *buffer.Rea
 // type. A fatal error is returned when an unexpected error is returned while
 // consuming the expected message size or when attempting to write the error
 // message back to the client.
-func handleMessageSizeExceeded(reader *buffer.Reader, writer *buffer.Writer, exceeded error) (err error) {
+func (srv *Session) handleMessageSizeExceeded(t types.ClientMessage, reader *buffer.Reader, writer *buffer.Writer, exceeded error) (err error) {
 	unwrapped, has := buffer.UnwrapMessageSizeExceeded(exceeded)
 	if !has {
 		return exceeded
@@ -135,7 +145,25 @@ func handleMessageSizeExceeded(reader *buffer.Reader, writer *buffer.Writer, exc
 		return err
 	}
 
+	if srv.discard {
+		return nil
+	}
+
+	switch t {
+	case types.ClientParse, types.ClientBind, types.ClientDescribe, types.ClientExecute, types.ClientClose, types.ClientFlush:
+		return srv.extendedError(writer, exceeded)
+	}
+
 	return ErrorCode(writer, exceeded)
+}
+
+// extendedError reports the failure of an extended query message. A single
+// error response is written to the client and all following messages are
+// discarded until a Sync message is received, which ends the command cycle.
+// https://www.postgresql.org/docs/current/protocol-flow.html#PROTOCOL-FLOW-EXT-QUERY
+func (srv *Session) extendedError(writer *buffer.Writer, err error) error {
+	srv.discard = true
+	return errorResponse(writer, err)
 }
 
 // handleCommand handles the given client message. A client message includes a
@@ -192,6 +220,7 @@ func (srv *Session) handleCommand(ctx context.Context, conn net.Conn, t types.Cl
 		// — this ensures that there is one and only one ReadyForQuery sent for
 		// each Sync.)
 		// https://www.postgresql.org/docs/current/protocol-flow.html#PROTOCOL-FLOW-EXT-QUERY
+		srv.discard = false
 		return readyForQuery(writer, types.ServerIdle)
 	case types.ClientBind:
 		return srv.handleBind(ctx, reader, writer)
@@ -290,7 +319,7 @@ func (srv *Session) handleSimpleQuery(ctx context.Context, reader *buffer.Reader
 
 func (srv *Session) handleParse(ctx context.Context, reader *buffer.Reader, writer *buffer.Writer) error {
 	if srv.parse == nil || srv.Statements == nil {
-		return ErrorCode(writer, NewErrUnimplementedMessageType(types.ClientParse))
+		return srv.extendedError(writer, NewErrUnimplementedMessageType(types.ClientParse))
 	}
 
 	name, err := reader.GetString()
@@ -324,14 +353,14 @@ func (srv *Session) handleParse(ctx context.Context, reader *buffer.Reader, writ
 
 	statement, err := singleStatement(srv.parse(ctx, query))
 	if err != nil {
-		return ErrorCode(writer, err)
+		return srv.extendedError(writer, err)
 	}
 
 	srv.logger.Debug("incoming extended query", slog.String("query", query), slog.String("name", name), slog.Int("parameters", len(statement.parameters)))
 
 	err = srv.Statements.Set(ctx, name, statement)
 	if err != nil {
-		return ErrorCode(writer, err)
+		return srv.extendedError(writer, err)
 	}
 
 	writer.Start(types.ServerParseComplete)
@@ -359,7 +388,7 @@ func (srv *Session) handleDescribe(ctx context.Context, reader *buffer.Reader, w
 		}
 
 		if statement == nil {
-			return ErrorCode(writer, errors.New("unknown statement"))
+			return srv.extendedError(writer, errors.New("unknown statement"))
 		}
 
 		err = srv.writeParameterDescription(writer, statement.parameters)
@@ -376,13 +405,13 @@ func (srv *Session) handleDescribe(ctx context.Context, reader *buffer.Reader, w
 		}
 
 		if portal == nil {
-			return ErrorCode(writer, errors.New("unknown portal"))
+			return srv.extendedError(writer, errors.New("unknown portal"))
 		}
 
 		return srv.writeColumnDescription(ctx, writer, portal.formats, portal.statement.columns)
 	}
 
-	return ErrorCode(writer, fmt.Errorf("unknown describe command: %s", string(d[0])))
+	return srv.extendedError(writer, fmt.Errorf("unknown describe command: %s", string(d[0])))
 }
 
 // https://www.postgresql.org/docs/15/protocol-message-formats.html
@@ -437,7 +466,7 @@ func (srv *Session) handleBind(ctx context.Context, reader *buffer.Reader, write
 	}
 
 	if stmt == nil {
-		return NewErrUnkownStatement(statement)
+		return srv.extendedError(writer, NewErrUnkownStatement(statement))
 	}
 
 	err = srv.Portals.Bind(ctx, name, stmt, parameters, formats)
@@ -540,7 +569,7 @@ func (srv *Session) readColumnTypes(reader *buffer.Reader) ([]FormatCode, error)
 
 func (srv *Session) handleExecute(ctx context.Context, reader *buffer.Reader, writer *buffer.Writer) error {
 	if srv.Statements == nil {
-		return ErrorCode(writer, NewErrUnimplementedMessageType(types.ClientExecute))
+		return srv.extendedError(writer, NewErrUnimplementedMessageType(types.ClientExecute))
 	}
 
 	name, err := reader.GetString()
@@ -560,7 +589,7 @@ func (srv *Session) handleExecute(ctx context.Context, reader *buffer.Reader, wr
 	srv.logger.Debug("executing", slog.String("name", name), slog.Uint64("limit", uint64(limit)))
 	err = srv.Portals.Execute(ctx, name, reader, writer)
 	if err != nil {
-		return ErrorCode(writer, err)
+		return srv.extendedError(writer, err)
 	}
 
 	return nil
